@@ -15,6 +15,7 @@ import TzVerif.Proofs.Search
 import TzVerif.Proofs.SearchRule
 import TzVerif.Proofs.SpecGaps
 import TzVerif.Proofs.SrcEqFind
+import TzVerif.Proofs.SrcEqList
 
 namespace TzVerif.C06
 open TzVerif.Model TzVerif.Proofs
@@ -166,5 +167,17 @@ theorem reported_gaps_are_the_spec_set_src (y mo d h mi s ns : Int) (z : TimeZon
     (T, a, b) ∈ Spec.gapSet z (Spec.seconds y mo d h mi s) ↔
       ∃ xb xa, Found.skipped xb xa ∈ rs ∧ xb.unixTime = T ∧ xb.localTimeType = a ∧ xa.localTimeType = b :=
   reported_gaps_are_the_spec_set y mo d h mi s ns z rs hz hfd (SrcEq.find_date_time_eq y mo d h mi s ns z ▸ hf) T a b
+
+/-- the accessor clauses about the translated `FoundDateTimeList::{unique, earliest, latest}` (src/datetime/find.rs):
+    `unique` answers exactly for one valid result; `earliest` / `latest` are the first / last entry, a gap counting
+    with its before / after representation -/
+theorem accessors_src (rs : List Found) :
+    (∀ x, Src.FoundDateTimeList.unique rs = some x ↔ rs = [.normal x]) ∧
+    Src.FoundDateTimeList.earliest rs = rs.head?.map (fun f => match f with | .normal d => d | .skipped b _ => b) ∧
+    Src.FoundDateTimeList.latest rs = rs.getLast?.map (fun f => match f with | .normal d => d | .skipped _ a => a) := by
+  refine ⟨fun x => ?_, ?_, ?_⟩
+  · rw [Proofs.SrcEq.list_unique_eq]; exact unique_iff rs x
+  · rw [Proofs.SrcEq.list_earliest_eq]; exact earliest_is_first rs
+  · rw [Proofs.SrcEq.list_latest_eq]; exact latest_is_last rs
 
 end TzVerif.C06
